@@ -124,7 +124,12 @@ func (sr *ServiceRouter) RouteHTTP(r *http.Request) (grpcadapter.ClientConn, HTT
 		return nil, HTTPRoute{}, httperr.Status(http.StatusMethodNotAllowed, status.Errorf(codes.Unimplemented, http.StatusText(http.StatusMethodNotAllowed)))
 	}
 
+	// RawPath is only set by net/url when the default encoding of Path differs from the original request path,
+	// so for most real requests it is empty and the (escaped) path must be used instead.
 	rpcName := r.URL.RawPath
+	if rpcName == "" {
+		rpcName = r.URL.EscapedPath()
+	}
 
 	svc, method, ok := parseRPCName(rpcName)
 	if !ok {
